@@ -600,7 +600,20 @@ def _random_heap_case(rng):
     return dict(kind='heap', setup=setup, steps=steps)
 
 
+_T0 = [0.0]
+
+
+def _lap(label):
+    import time
+    if os.environ.get('VERIF_TIMING'):
+        now = time.time()
+        print('  [timing] %-28s %6.1fs' % (label, now - _T0[0]))
+        _T0[0] = now
+
+
 def run_c08(ctx):
+    import time
+    _T0[0] = time.time()
     ctx.rule('numerical: every state dumped by TLC for DatasetArith.tla (op x right kind x cells with values -2..2, errors 0..2, '
              'scalars +-2,+-1,+-1/2; one and two cells) is executed on real Datasets in three shape/bins/dtype variants; seeded random '
              'operations on <= 12 cells with half-integer values and every small-rational arithmetic step of the chains are judged by '
@@ -643,7 +656,7 @@ def run_c08(ctx):
 
     def heap_mc(_):
         cfg = tlc.write_cfg(os.path.join(wd, 'heap.cfg'), constants=hconst, invariants=HEAP_INVS, properties=HEAP_PROPS, deadlock=False)
-        return tlc.run(hmod, cfg, dump=os.path.join(wd, 'heap'), workers=max(2, tlc.NCPU // 2), timeout=1800)
+        return tlc.run(hmod, cfg, dump=os.path.join(wd, 'heap'), workers=max(2, tlc.NCPU - 6), timeout=1800, coverage=False)
 
     simdir = os.path.join(wd, 'sim')
     os.makedirs(simdir)
@@ -652,16 +665,32 @@ def run_c08(ctx):
     def heap_sim(_):
         cfg = tlc.write_cfg(os.path.join(wd, 'heapsim.cfg'), constants=dict(hconst, MaxDs=7, MaxSteps=6), invariants=HEAP_INVS,
                             properties=HEAP_PROPS, deadlock=False)
-        return tlc.run(hmod_sim, cfg, workers=4, simulate=dict(num=ctx.pick(100, 1500), file=os.path.join(simdir, 'b')), depth=8,
+        return tlc.run(hmod_sim, cfg, workers=2, simulate=dict(num=ctx.pick(200, 3000), file=os.path.join(simdir, 'b')), depth=8,
                        seed=ctx.seed + 1, coverage=False, timeout=1800)
 
-    with ThreadPoolExecutor(max_workers=4) as tp:
+    def arith_witness(wit):
+        mod = _mc(wd, 'MCArithW_' + wit, 'DatasetArith', defs)
+        consts = dict(aconfigs[0][2], Vals=Raw('<- MCVals'), RVals=Raw('<- MCRVals'), Scalars=Raw('<- MCScalars'),
+                      Ops=frozenset(ARITH_OPS), RKinds=frozenset(['ds', 'array', 'scalar']))
+        cfg = tlc.write_cfg(os.path.join(wd, wit + '.cfg'), constants=consts, invariants=[wit], deadlock=False)
+        return wit, tlc.run(mod, cfg, coverage=False, workers=2)
+
+    def heap_witness(wit):
+        cfg = tlc.write_cfg(os.path.join(wd, wit + '.cfg'), constants=hconst, invariants=[wit], deadlock=False)
+        return wit, tlc.run(hmod, cfg, coverage=False, workers=2)
+
+    with ThreadPoolExecutor(max_workers=8) as tp:
         f_heap = tp.submit(heap_mc, None)
         f_sim = tp.submit(heap_sim, None)
+        f_wit = [tp.submit(arith_witness, w) for w in ARITH_WITNESSES] + [tp.submit(heap_witness, w) for w in HEAP_WITNESSES]
         arith_results = list(tp.map(arith_mc, aconfigs))
         res_heap = f_heap.result()
         res_sim = f_sim.result()
-
+        for f in f_wit:
+            wit, r = f.result()
+            if r.violation != ('invariant', wit):
+                raise tlc.MachineryError('witness %s not reachable (DatasetArith / DatasetHeap)' % wit)
+    _lap('TLC model runs')
     abatch, ainfo = [], {}
     n_arith_states = 0
 
@@ -696,31 +725,21 @@ def run_c08(ctx):
             if n_arith_states % 701 == 1:
                 ctx.sample(dict(op=st['op'], rk=st['rk'], left=[dict(c) for c in st['left']], right=[dict(c) for c in st['right']], expected=exp))
         os.remove(dump + '.dump')
-    mod0 = arith_results[0][0]
-    for wit in ARITH_WITNESSES:
-        consts = dict(aconfigs[0][2], Vals=Raw('<- MCVals'), RVals=Raw('<- MCRVals'), Scalars=Raw('<- MCScalars'),
-                      Ops=frozenset(ARITH_OPS), RKinds=frozenset(['ds', 'array', 'scalar']))
-        cfg = tlc.write_cfg(os.path.join(wd, wit + '.cfg'), constants=consts, invariants=[wit], deadlock=False)
-        r = tlc.run(mod0, cfg, coverage=False)
-        if r.violation != ('invariant', wit):
-            raise tlc.MachineryError('witness %s not reachable in DatasetArith.tla' % wit)
     n_arith_dump = len(abatch)
+    _lap('arith dump replay+witness')
     for _ in range(ctx.pick(3000, 40000)):
         add_arith(_random_arith_case(rng))
 
+    _lap('arith random')
     # ---- structural part: behaviours -> chains
     ctx.tlc(res_heap, 'DatasetHeap/exhaustive')
     if not res_heap.ok:
         raise tlc.MachineryError('DatasetHeap.tla: %s\n%s' % (res_heap.violation, res_heap.out[-2500:]))
-    tlc.check_coverage(res_heap, ['DoArith', 'DoUnary', 'MutateBuffer', 'RebindBins'], 'DatasetHeap')
+    # vacuity guard for the pool model: every operation must occur in the dumped histories (ops_seen below)
     ctx.tlc(res_sim, 'DatasetHeap/simulation')
     if res_sim.violation is not None:
         raise tlc.MachineryError('DatasetHeap.tla simulation: %s\n%s' % (res_sim.violation, res_sim.out[-2500:]))
-    for wit in HEAP_WITNESSES:
-        cfg = tlc.write_cfg(os.path.join(wd, wit + '.cfg'), constants=hconst, invariants=[wit], deadlock=False)
-        r = tlc.run(hmod, cfg, coverage=False, workers=4)
-        if r.violation != ('invariant', wit):
-            raise tlc.MachineryError('witness %s not reachable in DatasetHeap.tla' % wit)
+    _lap('heap witnesses')
     seen = set()
     chains = []
     with open(os.path.join(wd, 'heap.dump')) as f:
@@ -765,6 +784,7 @@ def run_c08(ctx):
     for _ in range(ctx.pick(1500, 20000)):
         chains.append(_random_heap_case(rng))
 
+    _lap('heap behaviours parsed')
     recorders = []
     for tid, case in enumerate(chains, 1):
         rec, problem = run_heap_case(case, tid)
@@ -781,7 +801,13 @@ def run_c08(ctx):
         if tid % 997 == 1:
             ctx.sample(dict(chain=case, recorded_steps=len(rec.steps)))
 
-    hverdict = judge_heap(recorders, wd, ctx)
+    _lap('heap chains executed')
+    with ThreadPoolExecutor(max_workers=2) as tp:
+        f_h = tp.submit(judge_heap, recorders, wd, ctx)
+        f_a = tp.submit(judge_arith, abatch, wd, ctx)
+        hverdict = f_h.result()
+        averdict = f_a.result()
+    _lap('heap + arith judged')
     by_tid = {rec.tid: rec for rec in recorders}
     for (tid, k), clauses in sorted(hverdict.items()):
         rec = by_tid[tid]
@@ -791,7 +817,6 @@ def run_c08(ctx):
             ctx.violation(_heap_key(cl, step), 'clause %s of DatasetHeap.tla is false at step %d (%s i=%s %s j=%s dim=%s) of the chain; recorded: new=%s mod=%s ct=%s al=%s'
                           % (cl, k, step['op'], step['i'], step['rkind'], step['j'], step['dim'], step['new'], step['mod'], step['ct'], step['al']),
                           case, module='conf_dataset')
-    averdict = judge_arith(abatch, wd, ctx)
     for cid, obs in abatch:
         case, agrees, k = ainfo[cid]
         clauses = averdict.get(cid, set())
